@@ -666,10 +666,12 @@ def processData (s : S) (buf : Bytes) : S × Bytes × Bool :=
     | _ => (s, buf, false)
   | some h => processPayload s h buf
 
-/-- `while self.processData() and self.state != STATE_CLOSED: pass` -/
+/-- `while not self.wasClean and self.processData() and self.state != STATE_CLOSED: pass` — once the peer's close
+frame has been taken in (`wasClean`), nothing more is processed -/
 def drain : Nat → S → Bytes → S × Bytes
   | 0, s, buf => (s, buf)
   | fuel + 1, s, buf =>
+    if s.wasClean then (s, buf) else
     let r := processData s buf
     if r.2.2 && r.1.st ≠ .closed then drain fuel r.1 r.2.1 else (r.1, r.2.1)
 
@@ -683,7 +685,8 @@ def dataReceived (s : S) (d : Bytes) : S :=
   match s.st with
   | .opened | .closing =>
     let r := drain (drainFuel (s.data ++ d)) { s with data := [] } (s.data ++ d)
-    { r.1 with data := r.2 }
+    -- `if self.wasClean: self.data = b""`: what a peer sends behind its close frame is discarded
+    { r.1 with data := if r.1.wasClean then [] else r.2 }
   | _ => { s with data := s.data ++ d }
 
 /-! ## message-level send API -/
